@@ -128,6 +128,10 @@ class _Simp(ast.NodeTransformer):
 
     def visit_Call(self, node):
         self.generic_visit(node)
+        # f(**{"a": x}) is f(a=x)   (a substituted local holding the keyword arguments)
+        if any(k.arg is None and isinstance(k.value, ast.Dict) for k in node.keywords):
+            from .nf import _expand_dict_keywords
+            node = _expand_dict_keywords(node)
         # len of a display without unpacking
         if isinstance(node.func, ast.Name) and node.func.id == "len" and len(node.args) == 1 and not node.keywords:
             a = node.args[0]
